@@ -166,6 +166,32 @@ func oracleC01(r *Rng, n int, thorough bool, seeds []string) *OracleResult {
 				what = "the decoded packet changed when the bytes it was decoded from were overwritten: " + d
 				return
 			}
+			// a decoded packet is the caller's: a relay writes its address into giaddr in
+			// place, a server fills yiaddr - and the next packet decoded from the same bytes
+			// still is the packet that was encoded (seeded change C01-15: every zero address
+			// field of every decoded packet being one shared package-level slice)
+			for _, ip := range []net.IP{q.ClientIPAddr, q.YourIPAddr, q.ServerIPAddr, q.GatewayIPAddr} {
+				for i := range ip {
+					ip[i] = 0xa5
+				}
+			}
+			for i := range q.ClientHWAddr {
+				q.ClientHWAddr[i] = 0xa5
+			}
+			for _, v := range q.Options {
+				for i := range v {
+					v[i] = 0xa5
+				}
+			}
+			q3, err := dhcpv4.FromBytes(p.ToBytes())
+			if err != nil {
+				what = "decode after an earlier decoded packet was written to failed: " + err.Error()
+				return
+			}
+			if d := diffPkt4(p, q3); d != "" {
+				what = "after the fields of an earlier decoded packet were overwritten in place, decoding the same bytes gives another packet: " + d
+				return
+			}
 			// the same packet with its fields laid out as views of one record
 			f := flatPkt4(p)
 			fb := f.ToBytes()
